@@ -351,12 +351,18 @@ class ExprMixin:
             return join_all(outs)
         j2 = (a.is_json and a.taint == 2) or (b.is_json and b.taint == 2)
         if j2:
-            self.raise_many(frame, BINOP_RAISES.get(type(op), ("TypeError",)), node, env, True,
+            excs = BINOP_RAISES.get(type(op), ("TypeError",))
+            if isinstance(op, ast.Mod):
+                # `str % x` is printf-style formatting: ValueError (bad format), OverflowError ('%c'), KeyError
+                # ('%(k)s' with a mapping), MemoryError ('%9999999999d').  Only when the LEFT operand may be a str.
+                may_str = ("str" in a.types or ((a.is_json or "any" in a.types) and "!str" not in a.types))
+                excs = ("TypeError", "ZeroDivisionError") + (FORMAT_RAISES if may_str else ())
+            self.raise_many(frame, excs, node, env, True,
                             reason=f"operator {type(op).__name__} on input node of unknown type")
         elif isinstance(op, (ast.Div, ast.FloorDiv, ast.Mod)) and b.taint == 2 and b.types & {"int", "float", "bool"}:
             self.raise_exc(frame, "ZeroDivisionError", node, env, True, reason="division by input number")
         elif isinstance(op, ast.Mod) and a.taint == 2 and a.types & {"str"}:
-            self.raise_many(frame, ("TypeError", "ValueError"), node, env, True, reason="%-formatting of input string")
+            self.raise_many(frame, ("TypeError",) + FORMAT_RAISES, node, env, True, reason="%-formatting of input string")
         t = taint1(a, b)
         if a.has_const and b.has_const:
             try:
@@ -955,10 +961,14 @@ class ExprMixin:
                 if c and all(f"inst:{k.qualname}" in inst_tags for k in c.all_subclasses()):
                     rem.add(t)
         if v.is_json:
-            # an input node stays an input node of the remaining JSON types: keep 'json'
+            # an input node stays an input node of the remaining JSON types: keep 'json', remember what
+            # it is known not to be (`!str`: consulted by the rows that only apply to strings)
             others = v.types - {"json"}
             new_others = others - rem
-            return replace(v, types=frozenset({"json"}) | new_others)
+            excl = frozenset("!" + t for t in rem if t in ("str",))
+            return replace(v, types=frozenset({"json"}) | new_others | excl)
+        if "any" in v.types and "str" in rem:
+            return replace(remove_tags(v, rem - {"any"}), types=(v.types - rem) | {"!str"})
         return remove_tags(v, rem)
 
     def narrow(self, test, env, branch: bool, frame):
@@ -1153,6 +1163,9 @@ class _Quiet:
     def __exit__(self, *a):
         del self.interp.raise_exc
         return False
+
+
+FORMAT_RAISES = ("ValueError", "OverflowError", "KeyError", "MemoryError")
 
 
 def _key_taint(k: AVal) -> int:
